@@ -26,19 +26,13 @@ func loopN(ctr string, n int64, body ...*gen.Node) []*gen.Node {
 
 func probeCases() map[string]Case {
 	m := map[string]Case{}
-	// C02-F01  this.x = 5; x
-	m["findings/C02-F01.json"] = one(gen.Prog(&gen.Node{K: "setthis", S: "x", Kids: []*gen.Node{gen.Int(5)}}, gen.Var("x")))
-	// C02-F02  x = 'abc'; x[5]
-	m["findings/C02-F02.json"] = one(gen.Prog(gen.Set("x", gen.Str("abc", 0)), gen.N("idx", gen.Var("x"), gen.Int(5))))
-	// C02-F02b  32-character string indexed at 32
-	m["findings/C02-F02b.json"] = one(gen.Prog(gen.N("idx", gen.Str("abcdefghijklmnopqrstuvwxyzabcdef", 0), gen.Int(32))))
-	// C02-F07  i=0; while i<2 { i=i+1; &w = this.x ?? 7; r = w; &w.x = 5 }; r
-	m["findings/C02-F07.json"] = one(gen.Prog(append(loopN("i", 2,
-		&gen.Node{K: "setc", S: "w", Kids: []*gen.Node{gen.Bin("??", &gen.Node{K: "this", S: "x"}, gen.Int(7))}},
-		gen.Set("r", gen.Var("w")),
-		&gen.Node{K: "setca", S: "w", Names: []string{"x"}, Kids: []*gen.Node{gen.Int(5)}}), gen.Var("r"))...))
-	// C02-F08  [4611686018427387905].sum()
-	m["findings/C02-F08.json"] = one(gen.Prog(gen.MCall(gen.N("arr", gen.Int(4611686018427387905)), "sum")))
+	// C02-F09  &j6 = 2d(7) ; j6   (the blank before ';' is what matters: noise value 7 prints " " at the
+	// whitespace slot in front of the separator)
+	c := one(gen.Prog(&gen.Node{K: "setc", S: "j6", Kids: []*gen.Node{
+		{K: "dice", Kids: []*gen.Node{gen.Int(2), gen.N("pos", gen.Int(7)), gen.None(), gen.None(), gen.None()}}}}, gen.Var("j6")))
+	c.Steps[0].Noise = []int{0, 0, 7}
+	c.Steps[0].Src, _ = gen.PrintNoisy(c.Steps[0].Prog, &gen.Noise{Vals: c.Steps[0].Noise})
+	m["findings/C02-F09.json"] = c
 	return m
 }
 
@@ -83,6 +77,34 @@ func replayCases() map[string]Case {
 			gen.N("if", gen.Bin("%", v("i"), i(2)), gen.Block(gen.Set("n", gen.Bin("+", v("n"), i(1))), gen.N("continue")),
 				gen.Block(gen.N("if", gen.Bin(">", v("i"), i(50)), gen.Block(gen.N("break")), gen.None())))), gen.None()),
 		gen.Set("n", gen.Bin("+", v("n"), i(100))))...), gen.N("arr", v("i"), v("n")))...))
+	// this.x = 5; x  — store.local had no VM case (was C02-F01, repaired in /repo dd03001)
+	m["replays/C02/this-assign.json"] = one(gen.Prog(&gen.Node{K: "setthis", S: "x", Kids: []*gen.Node{i(5)}}, v("x"),
+		&gen.Node{K: "func", S: "g2", Kids: []*gen.Node{gen.Block(&gen.Node{K: "setthis", S: "y", Kids: []*gen.Node{i(3)}}, gen.Bin("+", v("y"), i(1)))}},
+		gen.N("arr", gen.Call(v("g2")), v("y"))))
+	// x = 'abc'; x[5] / ('abc')[-7] / 32-character string at 32  — string index clamped (was C02-F02, 5db9ef5)
+	m["replays/C02/string-index-range.json"] = one(gen.Prog(gen.Set("x", gen.Str("abc", 0)), gen.N("idx", v("x"), i(5))))
+	m["replays/C02/string-index-negative.json"] = one(gen.Prog(gen.N("idx", gen.Str("abc", 0), i(-7))))
+	m["replays/C02/string-index-at-length-32.json"] = one(gen.Prog(gen.N("idx", gen.Str("abcdefghijklmnopqrstuvwxyzabcdef", 0), i(32))))
+	// a computed definition executed twice starts from an empty attribute space (was C02-F07, 6518ec3)
+	m["replays/C02/computed-redefinition.json"] = one(gen.Prog(append(loopN("i", 2,
+		&gen.Node{K: "setc", S: "w", Kids: []*gen.Node{gen.Bin("??", &gen.Node{K: "this", S: "x"}, i(7))}},
+		gen.Set("r", v("w")),
+		&gen.Node{K: "setca", S: "w", Names: []string{"x"}, Kids: []*gen.Node{i(5)}}), v("r"))...))
+	// [4611686018427387905].sum() and kh/kl beyond 2^53 (was C02-F08, 6c8dda2)
+	m["replays/C02/int-sum-exact.json"] = one(gen.Prog(gen.N("arr",
+		gen.MCall(gen.N("arr", gen.Int(4611686018427387905)), "sum"),
+		gen.MCall(gen.N("arr", gen.Int(4611686018427387905), i(3)), "kh"),
+		gen.MCall(gen.N("arr", gen.Int(4611686018427387905), gen.Int(4611686018427387907)), "kl"))))
+	// every assignment form yields the assigned value (e1a4753)
+	m["replays/C02/assignment-values.json"] = one(gen.Prog(gen.Set("x", gen.N("arr", i(0), i(1))), gen.Set("z", gen.N("dict")),
+		&gen.Node{K: "setc", S: "w", Kids: []*gen.Node{i(1)}},
+		gen.N("arr",
+			gen.N("setidx", v("x"), i(0), i(7)),
+			&gen.Node{K: "setattr", S: "z", Names: []string{"k"}, Kids: []*gen.Node{i(2)}},
+			&gen.Node{K: "setca", S: "w", Names: []string{"x"}, Kids: []*gen.Node{i(3)}},
+			gen.N("setslice", v("x"), i(0), i(1), gen.N("arr", i(9))),
+			&gen.Node{K: "setthis", S: "u", Kids: []*gen.Node{i(4)}},
+			v("x"), v("u"))))
 	// GUIDE: variables of a function live in their own space → [10, 2]
 	m["replays/C02/guide-function-scope.json"] = one(gen.Prog(gen.Set("x", i(2)),
 		&gen.Node{K: "func", S: "g1", Kids: []*gen.Node{gen.Block(gen.Set("x", i(10)), gen.N("ret", v("x")))}},
